@@ -45,7 +45,9 @@ type Recorder struct {
 	tt     sim.TimeTeller
 	// OnEvent, when set, is called for every event as it happens (online oracles).
 	OnEvent func(e *Event)
-	digest  uint64
+	// OnAny, when set, is called for every event before OnEvent.
+	OnAny  func()
+	digest uint64
 }
 
 // New creates a recorder.
@@ -86,6 +88,9 @@ func (h *hook) Func(ctx sim.HookCtx) {
 	f.Write([]byte{byte(k)})
 	f.Write([]byte(reflect.TypeOf(msg).String()))
 	h.r.digest = (h.r.digest ^ f.Sum64()) * 1099511628211
+	if h.r.OnAny != nil {
+		h.r.OnAny()
+	}
 	if h.r.OnEvent != nil {
 		h.r.OnEvent(&h.r.Events[len(h.r.Events)-1])
 	}
